@@ -298,6 +298,23 @@ def run(tier):
         s.close()
         runs.append((a, rec.n, dict(kind="random", cfg=cn, seed=SEED, index=i)))
         chk.case(("random", cn, i), n=25)
+    # credentials across the length forms of their own headers: communities / user names / engine ids of 0 .. 300 octets (the library
+    # takes what it is given): every request of such a session must carry exactly the configured credential, minimally encoded
+    for L in (0, 1, 31, 32, 33, 64, 127, 128, 129, 200, 255, 256, 257, 300):
+        sweep = [("v1", rawdrv.Cfg("v1", community="c" * L)), ("v2c", rawdrv.Cfg("v2c", community="C" * L))]
+        if L >= 1:
+            sweep.append(("v3-user", rawdrv.Cfg("v3", user="u" * L, engine=std["v3-noauth"].engine)))
+            sweep.append(("v3-auth-user", rawdrv.Cfg("v3", user="w" * L, engine=std["v3-md5"].engine, auth="md5", akt="password", akm=b"authpass10")))
+        if L >= 5:
+            sweep.append(("v3-engine", rawdrv.Cfg("v3", user="user00", engine=bytes((7 * i + 1) % 256 for i in range(L)))))
+        for nm, cfg in sweep:
+            a = rec.n
+            s = rawdrv.RawSession(rec, cfg)
+            for op in (("get", "getnext", "get_many", "getbulk") if cfg.ver != "v1" else ("get", "getnext", "get_many")):
+                s.send(op, ["1.3.6.1.2.1.1.%d.0" % (L % 9 + 1)] * (3 if op == "get_many" else 1), maxrep=10 if op == "getbulk" else None)
+            s.close()
+            runs.append((a, rec.n, dict(kind="credential-length", cfg=nm, L=L)))
+            chk.case(("credential-length", nm, L), n=4)
     runs += asyncio.run(fetch_policy(rec))
     runs += asyncio.run(api_iterables(rec))
     # the configured user survives a failed discovery that is retried (every later request goes out under it)
